@@ -37,7 +37,8 @@ def main():
     serves = {}
     for p in props:
         pid = p["id"]
-        if not os.path.exists(os.path.join(VERIF, "checks", pid + ".py")):
+        enabled = set(open(os.path.join(VERIF, "checks", "ENABLED")).read().split())
+        if pid not in enabled or not os.path.exists(os.path.join(VERIF, "checks", pid + ".py")):
             na.append({"property_id": pid, "reason": NOT_CLAIMED.get(pid, DEFAULT_REASON)})
             continue
         os.environ.setdefault("AOTOOLS_REPO", "/repo")
